@@ -170,7 +170,7 @@ func C11_Relocate() {
 }
 
 // C11_GenRelocate: every relocatable body of the generated grammar family
-// (gen.go) computes the same [x, y, r, m.k] at top level (variables are
+// (gen.go) computes the same results at top level (variables are
 // globals), inside a function body (parameters and locals), inside a closure
 // (captured parameter and captured locals) and inside a module function.
 func C11_GenRelocate() {
@@ -187,11 +187,11 @@ func C11_GenRelocate() {
 		other = runVariant(genWrap(body, GFunc), nil, a, b, c)
 	case 1:
 		what = "inside a closure (captured variables)"
-		other = runVariant("f := func(x) { y := b; r := 0; m := {k: 0}; g := func() { "+body+" }; g(); return [x, y, r, m.k] }; out := f(a)", nil, a, b, c)
+		other = runVariant("f := func(x) { y := b; "+genPre+"g := func() { "+body+" }; g(); return "+genRes+" }; out := f(a)", nil, a, b, c)
 	default:
 		what = "inside a module function"
 		mods := tengo.NewModuleMap()
-		mods.AddSourceModule("m", []byte("export func(a, b, c) { x := a; y := b; r := 0; m := {k: 0}; "+body+"; return [x, y, r, m.k] }"))
+		mods.AddSourceModule("m", []byte("export func(a, b, c) { x := a; y := b; "+genPre+body+"; return "+genRes+" }"))
 		other = runVariant(`out := import("m")(a, b, c)`, mods, a, b, c)
 	}
 	vf.Assert(sameOutcome(base, other), "gen: "+body+" computes the same "+what)
